@@ -288,6 +288,13 @@ class Run:
             self.assign(s.target, self.ev(s.value))
 
     def st_AugAssign(self, s):
+        if isinstance(s.target, ast.Subscript) and isinstance(s.target.slice, ast.Slice) and isinstance(s.op, ast.Add):
+            base = self.ev(s.target.value)
+            if isinstance(base, SeqV) and base.kind == 'I':
+                from .liblinalg import iseq_slice_iadd
+                new = iseq_slice_iadd(self.eng.lib, self, base, self.ev_slice(s.target.slice), self.ev(s.value))
+                self.assign(s.target.value, new)
+                return
         cur = self.ev(_load(s.target))
         rhs = self.ev(s.value)
         new = self.eng.lib.binop(self, type(s.op).__name__, cur, rhs, inplace=True)
